@@ -1246,7 +1246,7 @@ func c02SharedScenarios() []c02Shared {
 	{
 		// (C02 and C01 alike: "once it is acknowledged an intact copy is retrievable")
 		for _, ser := range []bool{false, true} {
-			out = append(out, c02Shared{Kind: "shared", Prelude: "none", SizeY: 5, Serialize: ser, Bound: bound + 1, SameHash: true})
+			out = append(out, c02Shared{Kind: "shared", Prelude: "none", SizeY: 5, Serialize: ser, Bound: bound, SameHash: true})
 		}
 	}
 	for _, pre := range []string{"aborted-mid", "aborted-start", "none", "wrong-content", "get404"} {
